@@ -111,7 +111,7 @@ pub fn build(s: &Spec) -> Built {
     w.put("e_shnum", nsh as u64, 2);
     w.put("e_shstrndx", 3, 2);
     // ---- program headers
-    let mut ph = |w: &mut W, i: usize, ty: u32, flags: u32, off: u64, size: u64, align: u64| {
+    let ph = |w: &mut W, i: usize, ty: u32, flags: u32, off: u64, size: u64, align: u64| {
         let p = format!("ph{i}.");
         if b64 {
             w.put(&(p.clone() + "p_type"), ty as u64, 4);
@@ -137,7 +137,7 @@ pub fn build(s: &Spec) -> Built {
     ph(&mut w, 1, if s.ph_note { 4 } else { 0x6474e551 }, 4, ph_note_off as u64, ph_note.len() as u64, 4); // PT_NOTE
     ph(&mut w, 2, if s.dynamic { 2 } else { 0x6474e552 }, 6, dyn_off as u64, (ndyn * dynent) as u64, 8); // PT_DYNAMIC
     // ---- section headers
-    let mut sh = |w: &mut W, i: usize, name: u64, ty: u32, flags: u64, off: u64, size: u64, link: u32, align: u64| {
+    let sh = |w: &mut W, i: usize, name: u64, ty: u32, flags: u64, off: u64, size: u64, link: u32, align: u64| {
         let p = format!("sh{i}.");
         w.put(&(p.clone() + "sh_name"), name, 4);
         w.put(&(p.clone() + "sh_type"), ty as u64, 4);
